@@ -116,7 +116,7 @@ def run(ctx: Ctx) -> int:
         cases = small + rnd.sample(big, 12000)
     from .common import pmap
     items = list(enumerate(cases))
-    n = ok = 0
+    n = ok = bad = 0
     tasks = [(items[i::8], alg, 2) for alg in ALGS for i in range(8)]
     for (_, alg, _nv), res in zip(tasks, pmap(_chunk, tasks, chunksize=1)):
         for i, v, o in res:
@@ -127,12 +127,13 @@ def run(ctx: Ctx) -> int:
             if o.split(":")[0] == "ok":
                 ok += 1
             if o.split(":")[0] != want:
+                bad += 1
                 if want == "ok":
                     ctx.note_drift({"memberkeys": c["c"], "alg": alg, "observed": o})
                 else:
                     ctx.violation(f"memberkeys:{label(c['c'])} -> accepted [{alg}]",
                                   {"memberkeys_case": c["c"], "alg": alg, "variant": v, "observed": o})
-    if ok < 100:
+    if ok < 100 and not bad:
         raise MachineryError(f"vacuous member-key pass: {ok} tokens accepted")
     ctx.notes["member_key_cases"] = len(cases)
     return n
